@@ -25,7 +25,8 @@ From Coq Require Import List Arith Bool.
 Import ListNotations.
 From TI Require Import lib.Sched model.Locks model.LocksSpec model.LocksTie
   proofs.LocksProofs proofs.LocksTieProofs
-  model.LockSites gen.LockRegions proofs.LockRegionsProofs model.Exchange proofs.ExchangeProofs.
+  model.LockSites gen.LockRegions proofs.LockRegionsProofs model.Exchange proofs.ExchangeProofs
+  model.LocksCfg model.LocksCfgTie proofs.LocksCfgProofs proofs.LocksCfgTieProofs proofs.LocksCfgGen.
 
 (** no two threads (of whatever processes) are inside synchronized bodies at once *)
 Theorem C14_mutex :
@@ -158,3 +159,131 @@ Print Assumptions C14_screen_io_under_lock.
 Theorem C14_screen_regions_cover : screen_covers screen_regions = true.
 Proof. exact screen_regions_cover. Qed.
 Print Assumptions C14_screen_regions_cover.
+
+(** ** The library CONFIGURATION at the moment of [Process.start()] (model/LocksCfg.v)
+
+    Vocabulary: every process has a configuration [lconf = nat -> bool] (field 0: terminal
+    queries enabled — [term_image.disable_queries()] / [enable_queries()]; field 1: the
+    window-size swap; any further field: any other setting).  A schedule is a list of
+    [sitem]s: [SMove t] (thread [t] makes its next micro-step) or [SConf p f b] (some thread
+    of the running process [p] sets field [f] to [b]) — in ANY interleaving.  The step of
+    [_process_start_wrapper] that decides whether the lock is shared is given the
+    configuration of the starting process through a [policy]; [pol_code q = true] is the
+    code as it is.  [initQ prog q0]: the root process begins with ANY configuration [q0];
+    [q_init qc c]: child [c] begins with a fresh configuration ([Some q], spawn /
+    forkserver) or with a copy of its parent's at that moment ([None], fork).
+    [reachable_items (stepI pol qc) (initQ prog q0) s]: [s] is reached by SOME such schedule,
+    of any length, over any number of threads and processes. *)
+
+(** mutual exclusion is INDEPENDENT of the configuration and of its changes *)
+Theorem C14_config_mutex :
+  forall qc, single (q_base qc) = false ->
+  forall prog q0 s t1 t2,
+    reachable_items (stepI pol_code qc) (initQ prog q0) s ->
+    in_body (qs s) t1 -> in_body (qs s) t2 -> t1 = t2.
+Proof. exact code_mutex_lemma. Qed.
+Print Assumptions C14_config_mutex.
+
+(** more precisely: whatever the configurations and their changes, the lock / thread part of
+    a reachable state is a reachable state of the system without configuration — for every
+    policy that shares the lock under every configuration *)
+Theorem C14_config_independent :
+  forall pol qc prog q0 s,
+    (forall q, pol q = true) -> single (q_base qc) = false ->
+    reachable_items (stepI pol qc) (initQ prog q0) s ->
+    reachable (step (q_base qc)) (init prog) (qs s).
+Proof. exact cfg_reachable_base. Qed.
+Print Assumptions C14_config_independent.
+
+(** no process is ever left on a private lock: every child's module global is the shared
+    lock and the thread locks of the child processes are never touched *)
+Theorem C14_config_children_on_shared_lock :
+  forall pol qc prog q0 s,
+    (forall q, pol q = true) -> single (q_base qc) = false ->
+    reachable_items (stepI pol qc) (initQ prog q0) s ->
+    (forall p, lkC s p = free_lock) /\ (forall p, p <> 0 -> cur (qs s) p = LM).
+Proof. exact cfg_children_on_shared_lock. Qed.
+Print Assumptions C14_config_children_on_shared_lock.
+
+Theorem C14_config_trace_accepted :
+  forall qc, single (q_base qc) = false ->
+  forall prog q0 s,
+    reachable_items (stepI pol_code qc) (initQ prog q0) s -> accepts (rev (log (qs s))) = true.
+Proof. exact code_trace_accepted_lemma. Qed.
+Print Assumptions C14_config_trace_accepted.
+
+Theorem C14_config_queries_get_own_reply :
+  forall qc, single (q_base qc) = false ->
+  forall prog q0 s t n,
+    reachable_items (stepI pol_code qc) (initQ prog q0) s -> t_pc (th (qs s) t) = PWait n ->
+    (reqs (qs s) = [(t, n)] /\ reps (qs s) = []) \/ (reqs (qs s) = [] /\ reps (qs s) = [(t, n)]).
+Proof. exact code_queries_lemma. Qed.
+Print Assumptions C14_config_queries_get_own_reply.
+
+(** re-entrancy: a thread inside a body is never blocked by a lock or by the configuration *)
+Theorem C14_config_owner_proceeds :
+  forall qc, single (q_base qc) = false ->
+  forall prog q0 s t,
+    reachable_items (stepI pol_code qc) (initQ prog q0) s -> t <> term_tid (q_base qc) ->
+    in_body (qs s) t -> ~ waits_reply (qs s) t ->
+    exists s', stepI pol_code qc s (SMove t) = Some s'.
+Proof. exact code_owner_proceeds_lemma. Qed.
+Print Assumptions C14_config_owner_proceeds.
+
+(** the variant whose start step shares the lock only while queries are enabled (and hands
+    the child nothing otherwise) is refuted: disable queries; start the child; parent and
+    child are both inside a synchronized body *)
+Theorem C14_share_only_when_queries_enabled_refuted :
+  exists qc prog q0 sch t1 t2,
+    single (q_base qc) = false /\ t1 <> t2 /\
+    let s := run_items (stepI pol_if_queries qc) (initQ prog q0) sch in
+    in_body (qs s) t1 /\ in_body (qs s) t2.
+Proof. exact cfg_share_only_when_enabled_refuted_lemma. Qed.
+Print Assumptions C14_share_only_when_queries_enabled_refuted.
+
+(** the grain the harness replays only produces states the theorems above cover *)
+Theorem C14_config_macro_grain_covered :
+  forall pol qc s0 sch,
+    reachable_items (stepI pol qc) s0 (run_items (macroI pol qc) s0 sch).
+Proof. exact run_macroI_reachable. Qed.
+Print Assumptions C14_config_macro_grain_covered.
+
+(** the verdicts of the harness's comparison over schedules with configuration changes are
+    consistent: the model's own encoded trace passes the oracle applied to observed traces *)
+Theorem C14_config_model_traces_pass_the_oracle :
+  forall c, obs_ok (model_traceQ c) = true.
+Proof. exact model_traceQ_accepted. Qed.
+Print Assumptions C14_config_model_traces_pass_the_oracle.
+
+(** TRANSLATED obligation (T).  [start_handover] is generated from the source of
+    [_process_start_wrapper] / [_process_run_wrapper] by harness/tx/tx_locks.py (fail-closed):
+    the [if] / [elif] / [else] chain that decides what the child is handed, with its
+    CONDITIONS (boolean expressions over [isinstance(_tty_lock, _rlock_type)] and the module
+    globals of utils.py, i.e. the library's settings).  By computation on that table: whatever
+    the configuration, a thread lock is replaced by a new shared lock that is handed over and
+    a shared lock is handed over as it is — the model's [pol_code].  Any extra conjunct on a
+    setting (or a branch that hands over nothing) breaks this theorem; a condition outside
+    that vocabulary is refused by the translator.
+    Trusts: the translator's reading of the chain, [mp_RLock()] creates a lock (a platform
+    without [multiprocessing.synchronize] — the [except ImportError] arm — is outside the
+    property). *)
+Theorem C14_start_handover_ignores_configuration :
+  forall (is_thread_lock : bool) (q : nat -> bool),
+    eval_handover start_handover is_thread_lock q = if is_thread_lock then ONew else OGlobal.
+Proof. exact start_handover_ignores_configuration. Qed.
+Print Assumptions C14_start_handover_ignores_configuration.
+
+(** ... the decision is taken under the old lock and the child installs what it is handed *)
+Theorem C14_start_handover_shape :
+  h_under_lock start_handover = true /\ h_run_installs start_handover = true.
+Proof. exact start_handover_shape. Qed.
+Print Assumptions C14_start_handover_shape.
+
+(** mutual exclusion for the system whose start step follows the TRANSLATED table *)
+Theorem C14_config_mutex_translated :
+  forall qc, single (q_base qc) = false ->
+  forall prog q0 s t1 t2,
+    reachable_items (stepI (pol_of_table start_handover) qc) (initQ prog q0) s ->
+    in_body (qs s) t1 -> in_body (qs s) t2 -> t1 = t2.
+Proof. exact cfg_mutex_translated_lemma. Qed.
+Print Assumptions C14_config_mutex_translated.
